@@ -108,7 +108,8 @@ CHECKS.update({
    text="TLC proves the C07 invariants (promised statements on disk in order at stop/exit; signalled thread's statements then notice; right wait "
         "status; restart works) on Life.tla for all interleavings within small bounds, with -coverage and 7 seeded model defects caught; seeded TLC "
         "behaviours are run as forked children with the real backend thread/FileSink/signals and every recorded execution is validated by TLC "
-        "against LifeContract (TraceLife.tla)",
+        "against LifeContract (TraceLife.tla); the stop handshake under the C++ release/acquire model is StopRA.tla with the memory orders extracted "
+        "from the code, every transition replayed on the REAL backend thread / Backend::stop() / log calls on a shim atomic (h_stop), judged by TraceStop.tla",
    note="exhaustive only for main+1 worker x3 statements x2 starts x six signals, main+2 workers x2 statements x{SEGV,INT}, and main+2 workers x3 "
         "statements with no signals; the full bound by seeded simulation only; real code sampled (240/3000 children); a rejection must repeat in 3 "
         "re-runs, anything else is drift; signals inside a log call and async-signal-safety are out of scope",
@@ -164,6 +165,7 @@ man = {"version": 1, "setup_cmd": "cd /verif && ./setup.sh",
            {"name": "h_time", "path": "/verif/harness/h_time.cpp", "serves_properties": ["C13"], "kind_free_text": "real TimestampFormatter under TZ=<zone> with interposed strftime"},
            {"name": "h_named", "path": "/verif/harness/h_named.cpp", "serves_properties": ["C19"], "kind_free_text": "real named-args scanner and end-to-end JSON sink runs"},
            {"name": "h_life", "path": "/verif/harness/h_life.cpp", "serves_properties": ["C07"], "kind_free_text": "forked children running the real backend thread, FileSink and signals"},
+           {"name": "h_stop", "path": "/verif/harness/h_stop.cpp", "serves_properties": ["C07"], "kind_free_text": "the real backend thread (run loop, _poll, _exit), Backend::stop() and log calls of two real threads on the shim std::atomic (release/acquire model): the backend is parked at every load of its running flag, the script chooses what that load and the writer-position loads of the iteration read"},
            {"name": "h_lock", "path": "/verif/harness/h_lock.cpp", "serves_properties": ["C17"], "kind_free_text": "real detail::Spinlock on a shim std::atomic implementing the release/acquire model (coroutine threads, one step per atomic access, happens-before race detector)"},
            {"name": "h_remove", "path": "/verif/harness/h_remove.cpp", "serves_properties": ["C17"], "kind_free_text": "real LoggerManager / LoggerBase flags and bounded queue on the shim std::atomic (release/acquire model, script-chosen load values)"},
            {"name": "h_exit", "path": "/verif/harness/h_exit.cpp", "serves_properties": ["C20"], "kind_free_text": "real ThreadContext (_valid flag) and bounded queue on a shim std::atomic implementing the release/acquire model with script-chosen load values"},
